@@ -76,6 +76,21 @@ PROPS = {
   'leaks': True,
   'essential_classes': ['sig:parsed', 'aggr:parsed', 'ext:parsed', 'pubfile:parsed', 'tlv:parsed', 'element:parsed', 'mode:tree-mutation', 'mode:byte-mutation', 'mode:raw', 'context-reuse-checks'],
   'assumptions': ['only the generated inputs are covered; nothing is claimed for inputs not generated'],
+ }, 'C16': {
+  'technique': 'model-based property testing (rapidcheck + exhaustive leaf counts) against a reference forest merge and the reference chain formula',
+  'level_text': 'Generated leaf sequences (hash and metadata leaves, uniform / random / near-255 levels, maximum-level settings) are added to a tree builder; every '
+                'accept/refuse decision is compared with a reference model (the closed tree must stay within the level range), refused leaves are followed by more leaves, '
+                'and after closing the root is compared with an independently computed canonical left-to-right forest merge and every accepted hash leaf with the reference '
+                'chain fold of its extracted chain. Exhaustive over all leaf counts up to a bound for uniform levels. Block-signer part: see level_note.',
+  'level_note': 'Trusted: ref/chain.cpp, Crypto++ digests, the forest-merge model in harness/C16.cpp. The block-signer clauses (masking, per-leaf metadata, reset) are exercised by the '
+                'block-signer cases added with the aggregator simulation; until then only the tree-builder clauses are decided.',
+  'rule': 'rapidcheck choice strings -> (algorithm, 1..400 leaves each hash|metadata with level from six level distributions incl. 240..255, max level unset/tight/random); '
+          'exhaustive: n = 1..N uniform-level hash leaves x 6 level values x {unset, tight max level}. Non-trivial = >= 3 leaves with non-uniform levels, or a refused leaf '
+          'followed by more leaves; distinct = distinct (algorithm, n, level mode, max level, metadata count, sample levels).',
+  'quick': {'cases': 3200, 'max_size': 300, 'exhaustive': True, 'wall_s': 900},
+  'thorough': {'cases': 64000, 'max_size': 400, 'exhaustive': True, 'wall_s': 3000},
+  'essential_classes': ['all-accepted', 'refusal-then-more-leaves', 'has-metadata-leaves', 'max-level-set', 'proofs-checked'],
+  'assumptions': ['reference forest merge reflects the documented canonical merge'],
  },
 }
 
